@@ -13,6 +13,7 @@ import time
 import traceback
 
 from . import core
+from . import novelty
 from .core import AnalysisError, Ctx, VERIF
 
 EXPLANATION = (
@@ -85,6 +86,25 @@ def evidence(ctx, wall, violations, known_hits, error=None):
     }
 
 
+def unconfirmed(ctx, o):
+    """(function, changed statements) when the construct of an unmet obligation lies in a function that differs from the snapshot in
+    more statements than the limit (tyverif/novelty.py); None otherwise"""
+    lim = novelty.limit()
+    if lim <= 0 or ":" not in (o.where or ""):
+        return None
+    rel, _, line = o.where.rpartition(":")
+    try:
+        line = int(line)
+        mod = ctx.repo.mod(rel)
+    except Exception:
+        return None
+    qual = novelty.enclosing(mod.tree, line)
+    n = novelty.novelty(mod.tree, rel, qual)
+    if n is None or n <= lim:
+        return None
+    return "%s::%s" % (rel, qual), n
+
+
 def main(argv=None):
     ap = argparse.ArgumentParser()
     ap.add_argument("prop")
@@ -131,6 +151,8 @@ def main(argv=None):
         return 2
 
     known = core.load_known()
+    unconfirmed_list = []
+    ctx.extra["unconfirmed"] = unconfirmed_list
     violations = 0
     known_hits = []
     nrep = 0
@@ -145,6 +167,14 @@ def main(argv=None):
         if k is not None:
             print("KNOWN-FINDING: property=%s rule=%s %s %s: %s" % (prop, o.rule, o.where, o.construct, k.get("what", o.fact)))
             known_hits.append(o.key())
+            continue
+        nv = unconfirmed(ctx, o)
+        if nv is not None:
+            # the function has been restructured beyond what the rule was confirmed on: the unmet obligation is no verdict, not an alarm
+            msg = "%s: obligation %s not met (%s), but %s differs from the tree the rules were confirmed on in %d statements (limit %d): " \
+                  "the rule's reading of this structure is unconfirmed - no verdict" % (o.rule, o.construct, o.where, nv[0], nv[1], novelty.limit())
+            ctx.errors.append(msg)
+            unconfirmed_list.append({"rule": o.rule, "construct": o.construct, "where": o.where, "function": nv[0], "changed_statements": nv[1]})
             continue
         violations += 1
         nrep += 1
